@@ -268,7 +268,11 @@ impl<R: RuleType> Error<R> {
         };
 
         let mut line_iter = span.lines();
-        let sl = line_iter.next().unwrap_or("");
+        // An empty span at the end of the input meets no line: show the line the position is on,
+        // as `new_from_pos` does.
+        let sl = line_iter
+            .next()
+            .unwrap_or_else(|| span.start_pos().line_of());
         let mut chars = span.as_str().chars();
         let visualize_ws = matches!(chars.next(), Some('\n') | Some('\r'))
             || matches!(chars.last(), Some('\n') | Some('\r'));
